@@ -681,7 +681,7 @@ pixman_image_composite32 (pixman_op_t      op,
 	&imp, &func);
 
     info.src_image = src;
-    info.mask_image = mask;
+    info.mask_image = (mask_format == PIXMAN_null) ? NULL : mask;
     info.dest_image = dest;
 
     pbox = pixman_region32_rectangles (&region, &n);
